@@ -171,8 +171,13 @@ func genTarget(rng *rand.Rand, idx int, tag string) target {
 		k := 1 + rng.Intn(3)
 		var rounds [][]string
 		p := pub()
+		extra := rng.Intn(3) // 0-2 more public records in the vetted answers (multi-address hosts take other dial paths)
 		for i := 0; i < k; i++ {
-			rounds = append(rounds, []string{p})
+			ans := []string{p}
+			for e := 0; e < extra; e++ {
+				ans = append(ans, pub())
+			}
+			rounds = append(rounds, ans)
 		}
 		rounds = append(rounds, []string{int4or6()})
 		return target{host: name, isName: true, dns: rounds, class: "rebind", internal: true}
